@@ -71,7 +71,7 @@ def gen_workload(rng, root, tier, opts=None, big=False):
                 if rng.random() < 0.75:
                     vcount += 1
                     if (big and rng.random() < 0.15) or ("mem=" in opts and rng.random() < 0.6):
-                        v = "rep:%d:%d" % (rng.choice([300, 700, 1500, 2500] if "mem=" in opts else [300, 20000]), vcount & 255)
+                        v = "rep:%d:%d" % (rng.choice([300, 700, 1500, 2500] if "mem=" in opts else [300, 20000, 50000]), vcount & 255)
                     elif "vlog=1" in opts and rng.random() < 0.75:
                         # values above the separation threshold: one flush crosses several value-log files
                         v = "rep:%d:%d" % (rng.choice([12, 40, 90, 200]), vcount & 255)
@@ -175,7 +175,7 @@ def judge(answer, commits, n_required):
     return "ok", ""
 
 
-def explore(ctx, pid, want, n_quick=8, n_thorough=60, cuts_quick=40, big=False, opts_pool=None):
+def explore(ctx, pid, want, n_quick=8, n_thorough=60, cuts_quick=40, big=False, opts_pool=None, proto=None, proto_traces=None, proto_gen2=0):
     """want: set of verdict kinds this property reports (others are ignored here, the sibling
     property reports them)"""
     rng = C.Rng(ctx["seed"] * 7001 + 17)
@@ -191,6 +191,7 @@ def explore(ctx, pid, want, n_quick=8, n_thorough=60, cuts_quick=40, big=False, 
     samples = []
     n_tr = n_quick if tier == "quick" else n_thorough
     kf = C.known_findings(pid)
+    known_paths = {}
     for t in range(n_tr):
         wd = os.path.join(base, "t%d" % t)
         root = os.path.join(wd, "root")
@@ -237,6 +238,30 @@ def explore(ctx, pid, want, n_quick=8, n_thorough=60, cuts_quick=40, big=False, 
         stats["cuts"] += len(cuts)
         stats["images"] += len(imgs)
         answers = K.scan_images([d for d, _, _ in imgs], opts)
+        if proto is not None and (proto_traces is None or t < proto_traces):
+            # correspondence with Crash/Proto.v: the abstracted trace must be accepted by proto_okb and the
+            # model's `recover` must predict what each reopened image returned
+            pr = proto.check_trace(log, root + "/db", commits, imgs, answers, os.path.join(wd, "proto"), label="trace %d (%s): " % (t, opts),
+                                   opts=opts, gen2=proto_gen2, rng=rng, script1=script)
+            for (cls, desc, text) in pr.get("findings", []):
+                from . import multigen as MG
+                if MG.SCENARIOS.get(cls, (None,))[0] != pid:
+                    continue      # the sibling property reports this class
+                if cls in kf:
+                    if cls not in known_paths:
+                        known_paths[cls] = C.write_replay(pid, "known_%s_trace.txt" % cls, "# property=%s\n# KNOWN class %s: %s\n%s" % (pid, cls, kf[cls], text))
+                        res["known"].append("%s [class %s; replay: %s]" % (kf[cls], cls, known_paths[cls]))
+                else:
+                    res["violations"].append((desc + " (class %s, not listed as an open known finding)" % cls, "# property=%s\n%s" % (pid, text),
+                                              dict(trace=t, verdict=cls, opts=opts, log=log, script=script, commits=commits)))
+            res["disagreements"] += pr["disagreements"]
+            ps = stats.setdefault("proto", dict(traces=0, events=0, predictions=0, predictions_checked=0, rejected=0, unjudged=0, kinds={}, unmodelled=[]))
+            ps["unmodelled"] += pr.get("unmodelled", [])
+            ps["traces"] += 1
+            for k in ("events", "predictions", "predictions_checked", "rejected", "unjudged", "gen2_sessions", "gen2_events"):
+                ps[k] = ps.get(k, 0) + pr["stats"].get(k, 0)
+            for k, v in pr["stats"]["kinds"].items():
+                ps["kinds"][k] = ps["kinds"].get(k, 0) + v
         for (d, ci, pol), ans in zip(imgs, answers):
             _, n_proc, n_pow, kind = info[ci]
             need = n_proc if pol == "proc" else n_pow
@@ -315,4 +340,6 @@ def explore(ctx, pid, want, n_quick=8, n_thorough=60, cuts_quick=40, big=False, 
         "samples": samples, "traces": stats["traces"], "cut_points": stats["cuts"], "images": stats["images"],
         "discarded_traces": stats.get("discarded_traces", 0), "verdicts": stats["verdicts"], "policies": stats["policies"], "cut_kinds": stats["ops"], "exhaustive": False,
     }
+    if "proto" in stats:
+        res["coverage"]["protocol_model"] = stats["proto"]
     return res
